@@ -41,7 +41,7 @@ func c13(c *Ctx) {
 	r.Explain = "BITS: aggregation header bits read by AV1Depacketizer, AV1Packet and IsPartitionHead; OBU header and " +
 		"extension header parse/marshal agree with AV1 5.3.2/5.3.3 and with each other; STRUCT: the size flag is cleared " +
 		"before the transmitted header is marshalled and set before re-sizing, both sides drop exactly {temporal delimiter, " +
-		"tile list}, the packet split compares both layer ids. W/length arithmetic, Z/Y chaining and the round trip are not decided."
+		"tile list}, the packet split compares both layer ids. W/length arithmetic, Z/Y chaining and the round trip are not decided. LEB.len/write/inv/range decide the LEB128 clause per size class; CTR.lenprefix, CTR.wclosed and CTR.carrylayer are linear contracts on the payloader (length prefixes, packets closed by W are full, the remembered layer is never replaced by a possibly-nil header)."
 	n := 0
 	row := func(fn, what string, ok bool, detail string) {
 		n++
